@@ -307,3 +307,63 @@ def coverage_fn(text):
     b = vmat.inject(b, loops)
     return ("fn validate_fsm_state_coverage_traversal(fsm: &FsmImplementation, state_names: &NameSet, fsm_pipe: &FsmPipe) -> (res: Option<()>)\n"
             "  ensures res.is_some() <==> arms_ok(fsm.arms@, fsm.arms@.len() as int, %s),\n{\n" % N + b + "\n}\n")
+
+
+# ---------------------------------------------------------------------------------------------------------------------
+# execute_fsm_pipe: argument count / kind check, binding of the inputs, start state
+ARG_LOCALS = ['fsm_id', 'fsm', 'fsms', 'call_env', 'args', 'start_args', 'arg_expr', 'input_decls', 'specs', 'spec', 'arg_decl', 'arg_value', 'detached_arg',
+              'kind_annotation_node', 'expected_kind', 'actual_kind', 'state']
+
+
+def _arg_model():
+    import os
+    return open(os.path.join(os.path.dirname(os.path.dirname(os.path.abspath(__file__))), "contracts", "C17", "argmodel.rs")).read()
+
+
+ARG_ENS = """  ensures
+    // a wrong number of arguments, an argument of the wrong kind (or a kind annotation that cannot be resolved) is rejected
+    !args_ok(input_decls@, args@) ==> res is None,
+    // otherwise the machine runs from its declared start state, evaluated with exactly the given arguments bound to the declared input names
+    args_ok(input_decls@, args@) ==> res == (match ptv(fsm.start, bound(input_decls@, args@, args@.len() as int)) {
+        None => None,
+        Some(s0) => if cov(fsm, *fsm_pipe) { run_impl(fsm, s0, bound(input_decls@, args@, args@.len() as int)) } else { None },
+      }),
+"""
+ARG_INV = """    invariant input_decls@.len() == args@.len(), zi_ <= args@.len(),
+      call_env.map@ == bound(input_decls@, args@, zi_ as int),
+      forall|i: int| 0 <= i < zi_ ==> arg_ok(#[trigger] input_decls@[i], args@[i]),
+    decreases args@.len() - zi_,
+"""
+
+
+def arg_fn(text, features):
+    """(F) `execute_fsm_pipe` (src/interpreter/src/state_machines.rs) from the statement after `let input_decls = { .. };` (i.e. the argument-count test) to the end, onto
+    contracts/C17/argmodel.rs; `fsm`, `input_decls`, `args` (computed above) are parameters, `let mut call_env = Environment::new();` (above; checked) is kept.
+      P1  `for (arg_decl, arg_value) in input_decls.iter().zip(args.iter()) {` -> `let mut zi_ = 0; while zi_ < input_decls.len() && zi_ < args.len() { let arg_decl = &input_decls[zi_]; let arg_value = &args[zi_]; zi_ += 1;`
+      P2  `#[cfg(..)]` evaluated (default features); `kind_annotation(&X.kind, p)?.to_value_kind(..)?` -> `expected_kind_of(&X.kind, p)?`
+      P3  `return Err(..)` -> `return None`; the final call keeps its text (`execute_fsm_pipe_impl(&fsm, &mut state, &mut call_env, p)`)"""
+    from units import vC16
+    sig, body = extract_fn(text, "execute_fsm_pipe")
+    b0 = re.sub(r"//[^\n]*", "", body[body.index("{") + 1:body.rindex("}")]).replace("\r", "")
+    b0 = vlib.canon_bindings(sig, b0, ["fsm_pipe", "env", "p"], ARG_LOCALS)
+    if not find_code(b0, r"let\s+mut\s+call_env\s*=\s*Environment::new\(\)\s*;"):
+        raise AnchorLost("execute_fsm_pipe: `let mut call_env = Environment::new();` not found")
+    # anchored on the statement that computes `input_decls` (which every version keeps), not on the guard itself: a deleted guard must fail, not vanish
+    m = find_code(b0, r"let\s+input_decls\s*=\s*\{")
+    if not m:
+        raise AnchorLost("execute_fsm_pipe: `let input_decls = { .. };` not found")
+    e0 = match_brace(b0, m.end() - 1)
+    if not re.match(r"\s*;", b0[e0:]):
+        raise AnchorLost("execute_fsm_pipe: `let input_decls = { .. };` has an unexpected shape")
+    b = b0[b0.index(";", e0) + 1:]
+    b = vC16.apply_cfg(b, features)
+    b = vC16.err_to_none(b)
+    b, n = re.subn(r"for\s+\(\s*arg_decl\s*,\s*arg_value\s*\)\s+in\s+input_decls\.iter\(\)\.zip\(\s*args\.iter\(\)\s*\)\s*\{",
+                   "let mut zi_: usize = 0;\n  while zi_ < input_decls.len() && zi_ < args.len()\n" + ARG_INV + "  {\n    let arg_decl = &input_decls[zi_]; let arg_value = &args[zi_]; zi_ += 1;\n    proof { reveal_with_fuel(bound, 2); }", b)
+    if n != 1:
+        raise AnchorLost("execute_fsm_pipe: the loop over input_decls.iter().zip(args.iter()) not found")
+    b, n = re.subn(r"kind_annotation\(\s*&(\w+)\.kind\s*,\s*p\s*\)\s*\?\s*\.to_value_kind\((?:[^()]|\([^()]*\))*\)\s*\?", r"expected_kind_of(&\1.kind, p)?", b)
+    if re.search(r"\b(Err|Ok|MechError|kind_annotation\(|to_value_kind|cfg)\b", b):
+        raise AnchorLost("execute_fsm_pipe: the argument binding is outside the transcription rules")
+    return ("fn bind_arguments_and_run(fsm: FsmImplementation, fsm_pipe: &FsmPipe, input_decls: &Vec<ArgDecl>, args: &Vec<Value>, p: &Interpreter) -> (res: Option<Value>)\n"
+            + ARG_ENS + "{\n  let mut call_env = Environment::new();\n" + b + "\n}\n")
